@@ -49,7 +49,7 @@ CHECKS = {
   design="5/C08"),
  "C09": dict(
   technique="TLC model checking of Branching.tla (merge mechanism of the block API == native execution, every well-nested event sequence) with replay of every closed sequence into the code (BranchConf.tla) + TLC evaluation of a native-control-flow interpreter (NativeCF.tla, TraceCF.tla Inv_CF) against runs of the block API, plus TraceCore and TraceShape on the same runs",
-  text="Model checking with conformance: Branching.tla transcribes the context stack, backup, merge-by-selection, nodef bookkeeping and condition chaining next to a native execution; TLC checks equality at depth 0 for all sequences (length<=5 quick / 6 thorough), every closed sequence is replayed through the real API. Trace validation: ~50 structured program texts (if / if-else / if-elif-else, nesting, Arrays and matrices updated in place, divisions in dead arms, for over a secret bound with public maximum with/without break and bound check, while with public cap and break, compositions) are rendered as block-API calls and run for every input vector of a small window (both condition typings); TLC interprets the same AST natively and compares all final variables, checks no raise inside the domain and refusal of a bound above the maximum, constraint satisfaction / value==wire of the run, and equality of the constraint system across all inputs of one program.",
+  text="Model checking with conformance: Branching.tla transcribes the context stack, backup, merge-by-selection, nodef bookkeeping and condition chaining next to a native execution; TLC checks equality at depth 0 for all sequences (length<=5 quick / 6 thorough, and length<=7 at depth 1 in the thorough tier), every closed sequence of the first two is replayed through the real API. Trace validation: ~55 structured program texts (if / if-else / if-elif-else, chains of 3 and 4 conditions with and without else under every truth assignment, nesting, Arrays and matrices updated in place, divisions in dead arms, for over a secret bound with public maximum with/without break and bound check, while with public cap and break, compositions) are rendered as block-API calls and run for every input vector of a small window (both condition typings); TLC interprets the same AST natively and compares all final variables, checks no raise inside the domain and refusal of a bound above the maximum, constraint satisfaction / value==wire of the run, and equality of the constraint system across all inputs of one program.",
   note="Bounded program family and input window; the renderer harness/cfdriver.py is trusted as an observer. Relies on fix: commits 7b3a3bb, 395c6f5, 8a8c07c (without them no behaviour of this API exists).",
   design="5/C09"),
  "C14": dict(
